@@ -187,23 +187,22 @@ Proof.
      | ]);
     cbn [orb andb] in H;
     (destruct (Z.eqb_spec stype 9) as [->|N9]; [exfalso; apply Hns; reflexivity|]).
-    all: rewrite ?Hq in H.
+    all: assert (Hqa : forall x t, is_waiting (abs s) x t = queued_as s x t) by reflexivity.
+    all: rewrite ?Hq, ?Hqa in H.
     all: destruct (Z.eqb_spec stype 2) as [->|N2];
-      [ destruct (queued s system) eqn:QD; destruct (is_waiting (abs s) system 1) eqn:W;
-        try (rewrite (Hw _ _ W) in QD; discriminate QD); try discriminate H; cbn [negb];
+      [ destruct (queued_as s system 1) eqn:QD; cbn [negb];
         [ injection H as <- <-; rewrite C; cbn [Nat.eqb andb sstate_eqb]; destruct (status =? 0)%Z; cbn [andb];
           try (req "select"; rewrite C in R; cbn in R; destruct R as (Q & L & _ & D); cbn [fst]); fin_unq C Q L D
         | injection H as <- <-; apply finish_same; [exact Hinv|reflexivity] ]
       | ].
     all: destruct (Z.eqb_spec stype 4) as [->|N4];
-      [ destruct (queued s system) eqn:QD; destruct (is_waiting (abs s) system 3) eqn:W;
-        try (rewrite (Hw _ _ W) in QD; discriminate QD); try discriminate H; cbn [negb];
+      [ destruct (queued_as s system 3) eqn:QD; cbn [negb];
         [ injection H as <- <-; rewrite C; cbn [Nat.eqb andb sstate_eqb]; destruct (status =? 0)%Z; cbn [andb];
           try (req "deselect"; rewrite C in R; cbn in R; destruct R as (Q & L & _ & D); cbn [fst]); fin_unq C Q L D
         | injection H as <- <-; apply finish_same; [exact Hinv|reflexivity] ]
       | ].
     all: destruct (Z.eqb_spec stype 6) as [->|N6];
-      [ destruct (queued s system) eqn:QD; injection H as <- <-; [fin_unq C C C C | apply finish_same; [exact Hinv|reflexivity]] | ].
+      [ destruct (queued_as s system 5) eqn:QD; injection H as <- <-; [fin_unq C C C C | apply finish_same; [exact Hinv|reflexivity]] | ].
     all: destruct (Z.eqb_spec stype 7) as [->|N7]; [|discriminate H].
     all: destruct (queued s system) eqn:QD; injection H as <- <-; [fin_unq C C C C | apply finish_same; [exact Hinv|reflexivity]].
   - (* data message *)
@@ -363,3 +362,15 @@ Proof. exists separate_witness. eexists. eexists. split; [vm_compute; reflexivit
 Definition sample_history : list sevent :=
   [EvConnected; EvData 5 true true; EvCtrl 1 8 0; EvData 6 true true; EvOpen 5 77; EvData 77 true true; EvData 77 false true; EvCtrl 3 9 0; EvData 7 false true;
    EvOpen 1 78; EvCtrl 1 10 0; EvCtrl 2 78 0; EvClosing; EvCtrl 5 11 0; EvClosed; EvConnected; EvCtrl 5 12 0].
+
+(* a control response that answers no open request of ITS type has no effect: the state stays, nobody is resolved - also when a request
+   of another type is open under the same system bytes (D74) *)
+Theorem foreign_response_no_effect s system status :
+  (queued_as s system ST_SELECT_REQ = false -> hs_step s (EvCtrl ST_SELECT_RSP system status) = (s, [])) /\
+  (queued_as s system ST_DESELECT_REQ = false -> hs_step s (EvCtrl ST_DESELECT_RSP system status) = (s, [])) /\
+  (queued_as s system ST_LINKTEST_REQ = false -> hs_step s (EvCtrl ST_LINKTEST_RSP system status) = (s, [])).
+Proof.
+  unfold ST_SELECT_REQ, ST_DESELECT_REQ, ST_LINKTEST_REQ, ST_SELECT_RSP, ST_DESELECT_RSP, ST_LINKTEST_RSP.
+  repeat split; intro Q; cbn [hs_step]; unfold ST_SELECT_REQ, ST_DESELECT_REQ, ST_LINKTEST_REQ, ST_SELECT_RSP, ST_DESELECT_RSP, ST_LINKTEST_RSP, ST_REJECT;
+    cbn [Z.eqb Pos.eqb]; rewrite Q; reflexivity.
+Qed.
